@@ -3,8 +3,10 @@ package checks
 import (
 	"bytes"
 	"context"
+	"errors"
 	"fmt"
 	"strings"
+	"syscall"
 
 	"git.defalsify.org/vise.git/db"
 
@@ -22,6 +24,7 @@ func init() {
 		MaxSeconds: map[string]int{"quick": 40, "thorough": 900},
 		Run:        runC10,
 		Assumptions: []string{
+			"the simulated file system enforces NAME_MAX = 255 bytes per file name; the 252-byte key of the pool is not offered to the binary-key filesystem backend, whose encoded name for it is longer than that (keys a backend does not accept are outside the property)",
 			"keys follow the documented symbol grammar and do not end in a language suffix; session ids are dot-free; values are non-nil",
 			"a Put that returns an error although the type is not locked is counted (probe) and treated as not written; the backends must still agree with each other",
 			"Postgres is the in-process fake server (pgfake), not a real server; Dump is checked on the filesystem backend only",
@@ -32,7 +35,10 @@ func init() {
 	})
 }
 
-var c10Keys = []string{"foo", "foobar", "Zed9", "bar", "fo", "a_b", "x1", "wa", "ta", "w1"}
+var c10Keys = []string{"foo", "foobar", "Zed9", "bar", "fo", "a_b", "x1", "wa", "ta", "w1", c10LongKey}
+
+// a key every backend accepts whose translation file name (+ "_nor") is longer than a file name may be
+var c10LongKey = "L" + strings.Repeat("k", 251)
 var c10Sessions = []string{"inky", "", "a", "pinky", "b7"}
 var c10Langs = []string{"", "nor", "swa"}
 
@@ -85,7 +91,7 @@ func runC10(c *core.Ctx) *core.Outcome {
 		typ := []uint8{tTpl, tState, tUser, tBin, tMenu, tStatic}[t.Weighted(4, 4, 3, 2, 2, 1)]
 		sid := c10Sessions[t.Weighted(4, 3, 2, 1, 1)]
 		lg := c10Langs[t.Weighted(3, 3, 1)]
-		key := c10Keys[t.Weighted(5, 4, 3, 1, 1, 1, 1, 2, 2, 2)]
+		key := c10Keys[t.Weighted(5, 4, 3, 1, 1, 1, 1, 2, 2, 2, 1)]
 		if focusW {
 			// keys with a common first byte whose encoded (binary-key) file names are not adjacent
 			key = []string{"wa", "ta", "w1", "foo"}[t.Weighted(3, 3, 3, 1)]
@@ -239,6 +245,9 @@ func runC10(c *core.Ctx) *core.Outcome {
 				if !syncMem(m) {
 					continue
 				}
+				if key == c10LongKey && m.kind == world.BackFsBin {
+					continue // its encoded file name is longer than a file system accepts: not a key this backend accepts
+				}
 				kbuf, vbuf := []byte(key), append([]byte{}, val...)
 				if reuseBuffers {
 					// key and value are two parts of one record buffer (the key slice has the value behind it)
@@ -255,6 +264,15 @@ func runC10(c *core.Ctx) *core.Outcome {
 						kbuf[j] = '#'
 					}
 					o.Faults["caller_buffer_reuse"]++
+				}
+				if err != nil && errors.Is(err, syscall.ENAMETOOLONG) {
+					// this backend does not accept the key in this context (type, session and language all go into the file name)
+					if m.tooLong == nil {
+						m.tooLong = map[string]bool{}
+					}
+					m.tooLong[refKey(rc.pfx, rc.sid, key, "")] = true
+					o.Probes["write_refused_name_too_long"]++
+					continue
 				}
 				if err != nil {
 					errCount++
@@ -324,7 +342,16 @@ func runC10(c *core.Ctx) *core.Outcome {
 				if !syncMem(m) {
 					continue
 				}
+				if key == c10LongKey && m.kind == world.BackFsBin {
+					continue
+				}
+				if m.tooLong[refKey(rc.pfx, rc.sid, key, "")] {
+					continue
+				}
 				got, err := m.handles[hidx(m)].Get(ctxWithLang(ctxLg), []byte(key))
+				if !ok && err != nil && errors.Is(err, syscall.ENAMETOOLONG) {
+					continue // never written and not writable on this backend in this context: not a key it accepts
+				}
 				if ok {
 					if err != nil {
 						return fail("get-lost-value", i, "%s on %s failed (%v); the latest successful write was %q", trace[len(trace)-1], m.name, err, want)
@@ -406,6 +433,9 @@ func runC10(c *core.Ctx) *core.Outcome {
 					return fail("dump-duplicate", i, "%s on %s listed key %q twice", trace[len(trace)-1], m.name, dup)
 				}
 				for _, k := range sortedKeys(want) {
+					if m.tooLong[refKey(rc.pfx, rc.sid, k, "")] || (k == c10LongKey && m.kind == world.BackFsBin) {
+						continue
+					}
 					v, ok := got[k]
 					if !ok {
 						return fail("dump-missing", i, "%s on %s did not list key %q (listed %v)", trace[len(trace)-1], m.name, k, sortedKeys(got))
